@@ -190,8 +190,10 @@ class World:
         return tuple(out)
 
     # ---- event constructors (abstract + concrete recipe)
-    def _mk(self, name_or_id, cls, q, t, a, words=None, data=None):
-        if isinstance(name_or_id, str):
+    def _mk(self, name_or_id, cls, q, t, a, words=None, data=None, eid=None):
+        if eid is not None:
+            pass                  # the records of ONE multi-record text carry one id (whichever the table offers)
+        elif isinstance(name_or_id, str):
             ids = self.name_ids[name_or_id]
             eid = ids[0] if len(ids) == 1 else self.rnd.choice(ids)
         else:
@@ -218,25 +220,31 @@ class World:
         eid = eid if eid is not None else self.rnd.choice(self.unknown_ids)
         return self._mk(eid, 'UNK', q, t, {'x': 0}, words=tuple(self.rnd.getrandbits(64) for _ in range(4)))
 
-    def chunk(self, name, cls, q, t, data, extra=None):
+    def chunk(self, name, cls, q, t, data, extra=None, eid=None):
         a = {'data': list(data)}
         if extra:
             a.update(extra)
-        return self._mk(name, cls, q, t, a, data=data)
+        return self._mk(name, cls, q, t, a, data=data, eid=eid)
+
+    def one_id(self, name):
+        return self.rnd.choice(self.name_ids[name]) if len(self.name_ids[name]) > 1 else self.name_ids[name][0]
 
     def lookup(self, t, path: bytes, vid=None):
         vid = (self.rnd.getrandbits(64) if self.rnd.random() < 0.9 else 0) if vid is None else vid
-        return [self.chunk('VFS_LOOKUP', 'LKP', q, t, d) for q, d in lookup_records(path, vid)]
+        eid = self.one_id('VFS_LOOKUP')
+        return [self.chunk('VFS_LOOKUP', 'LKP', q, t, d, eid=eid) for q, d in lookup_records(path, vid)]
 
     def gstr(self, t, text: bytes, sid, dbg=0):
         out = []
+        eid = self.one_id('TRACE_STRING_GLOBAL')
         for q, d in global_string_records(text, dbg, sid):
-            out.append(self.chunk('TRACE_STRING_GLOBAL', 'GSTR', q, t, d, {'sid': sid} if q & 1 else None))
+            out.append(self.chunk('TRACE_STRING_GLOBAL', 'GSTR', q, t, d, {'sid': sid} if q & 1 else None, eid=eid))
         return out
 
     def tname(self, t, text: bytes, prev=False):
         n, c = ('TRACE_STRING_THREADNAME_PREV', 'TNAMEP') if prev else ('TRACE_STRING_THREADNAME', 'TNAME')
-        return [self.chunk(n, c, q, t, d) for q, d in threadname_records(text)]
+        eid = self.one_id(n)
+        return [self.chunk(n, c, q, t, d, eid=eid) for q, d in threadname_records(text)]
 
     def ntd(self, t, ntid, pid, q=0):
         return self._mk('TRACE_DATA_NEWTHREAD', 'NTD', q, t, {'ntid': ntid, 'pid': pid},
